@@ -69,6 +69,7 @@ func newDataStoreSet(l lane.Lane, basePath string, phook *DispatchHook) *dataSto
 }
 
 func (dss *dataStoreSet) save(l lane.Lane) error {
+	verifPoint("saveall:begin", 0, dss.basePath)
 	for index, ds := range dss.dbs {
 		dsc := ds.newDataStoreCommand()
 		err := dsc.save(l, dss.dataStoreFileName(index))
@@ -76,6 +77,7 @@ func (dss *dataStoreSet) save(l lane.Lane) error {
 			return err
 		}
 	}
+	verifPoint("saveall:done", 0, dss.basePath)
 	return nil
 }
 
